@@ -30,6 +30,7 @@ func c18Profile() Profile {
 		{"balance-algorithm", []string{"leastconn"}},
 		{"path-type", []string{"begin", "prefix", "exact"}},
 		{"auth-signin", []string{"http://h1.local/signin"}},
+		{"cors-enable", []string{"true"}},
 	}
 	p.SvcAnn = nil
 	p.Paths = append(append([]string{}, basePaths...), "/oauth2")
@@ -163,6 +164,11 @@ func c18Eval(s *ctlsim.Sim, objs []*world.Obj, params ctlsim.Params) (*Failure, 
 	}
 	reqs, _ := requestsFor(objs)
 	reqs, _ = dropAmbiguous(objs, reqs)
+	// every request also as a CORS preflight: authentication rules must not depend on the method
+	for _, rq := range append([]hapcfg.Request{}, reqs...) {
+		rq.Method = "OPTIONS"
+		reqs = append(reqs, rq)
+	}
 	for _, rq := range reqs {
 		host := strings.ToLower(strings.SplitN(rq.Host, ":", 2)[0])
 		if _, declared := ref.Hosts[host]; !declared || (rq.HTTPS && !ref.TLS[host]) {
